@@ -223,7 +223,7 @@ def run_property(mod, tier, seed, replay=None):
             return 1 if fails else 0
         jobs = int(os.environ.get("VERIF_JOBS", "0") or 0)
         if jobs <= 0:
-            jobs = min(16, os.cpu_count() or 1) if tier == "thorough" else 1
+            jobs = min(16, os.cpu_count() or 1) if tier == "thorough" else min(4, os.cpu_count() or 1)
         if getattr(mod, "SERIAL", False):
             jobs = 1
         try:
